@@ -14,22 +14,16 @@ package main
 
 import (
 	"bytes"
-	"compress/gzip"
 	"context"
 	"encoding/json"
 	"fmt"
 	"io"
 	"io/fs"
-	"math/rand"
-	"os"
-	"path/filepath"
-	"sort"
 	"strconv"
 	"strings"
 
 	_ "github.com/wader/fq/format/all"
 	"github.com/wader/fq/internal/verif/kit"
-	"github.com/wader/fq/internal/verif/treelib"
 	"github.com/wader/fq/pkg/bitio"
 	"github.com/wader/fq/pkg/decode"
 	"github.com/wader/fq/pkg/interp"
@@ -117,7 +111,7 @@ type job struct {
 	buf                     []byte // bin/fmt: bytes handed to fq
 	bufBits                 int64
 	root, want, target      *decode.Value
-	out, what               string
+	out, what, demo         string
 	failed                  bool
 }
 
@@ -151,7 +145,7 @@ const driver = `def _run($j): if $j.cmd=="d" then d($j.opts) elif $j.cmd=="dd" t
   elif $j.cmd=="ddv" then ddv($j.opts) elif $j.cmd=="hd" then hd($j.opts) else error("cmd") end;
 $jobs[] as $j
 | ( try ( _c10val($j.id)
-        | if $j.kind=="bin" then tobits[$j.a:$j.b] elif $j.kind=="fmt" then (if $j.format=="" then decode else decode($j.format) end) else . end
+        | if $j.kind=="bin" then tobits[$j.a:$j.b] elif $j.kind=="fmt" then ((if $j.format=="" then decode else decode($j.format) end) | if (try (_todisplay | true) catch false) then error("format with its own display") else . end) else . end
         | if ($j.path|length) > 0 then getpath($j.path) else . end
         | _c10note($j.id) | _run($j))
     catch "\u0002ERR \(tostring)"
@@ -239,6 +233,7 @@ type Event struct {
 	VR      []string `json:"vr"`
 	VS      []string `json:"vs"`
 	Perr    string   `json:"perr"`
+	Demo    string   `json:"demo"` // binding demo only: accept | reject | d4 (what TLC has to say)
 }
 
 func bufBytes(br bitio.ReaderAtSeeker) ([]byte, int64) {
@@ -279,30 +274,32 @@ func (j *job) event(t truth, ls []line, what string) Event {
 		}
 		hh, ah = append(hh, s), append(ah, s[len(s)-1:])
 	}
-	g := rowsOf(ls, j.l, bar, strings.Join(hh, " "), strings.Join(ah, ""))
+	hexHeader := strings.Join(hh, " ")
+	if len(hexHeader) > 3*j.l-1 { // digits wider than the column (base 2): fq cuts the header at the column width
+		hexHeader = hexHeader[:3*j.l-1]
+	}
+	g := rowsOf(ls, j.l, bar, strings.TrimRight(hexHeader, " "), strings.Join(ah, ""))
 	e := Event{Kind: "dump", What: what, L: j.l, AB: j.ab, SB: j.sb, D: j.d, Verbose: j.verbose, RD: t.rd, Blen: t.blen,
 		Start: t.start, Len: t.len, Show: t.show, Rows: g.Rows, Trunc: g.Trunc, HasV: t.hasv, Perr: g.Perr,
 		UAddr: []string{}, USize: []string{}, VR: []string{}, VS: []string{}, Buf: []int{}}
 	if len(ls) > 0 {
 		e.W = ls[0].w
 	}
-	if m := untilRe.FindStringSubmatch(g.Until); g.Trunc && m != nil {
+	if m := untilRe.FindStringSubmatch(g.Until); g.Trunc && m != nil && len(g.Until) < 3*j.l-1 && m[3] != "end" { // shorter than the column and not `until X (end)` cut before the size: certainly complete
 		e.UFull, e.UAddr, e.UEnd, e.USize = true, chars(m[1]), m[2] != "", chars(m[3])
 	}
 	if t.hasv {
 		vr, vs := verboseOf(g.Name)
 		e.VR, e.VS = chars(vr), chars(vs)
 	}
-	// window of the buffer: everything when small, else the lines around the value
-	lo, hi := int64(0), int64(len(t.buf))
-	if hi > 4096 {
-		lo = max(0, t.start/8-2*int64(j.l))
-		hi = min(hi, (t.start+t.len)/8+2*int64(j.l)+1)
-		if j.d > 0 {
-			hi = min(hi, t.start/8+int64(j.d)+3*int64(j.l))
-		}
+	// window of the buffer: the lines around the value (a cell outside the window has no byte to agree with)
+	lo := max(0, t.start/8-2*int64(j.l))
+	hi := min(int64(len(t.buf)), (t.start+t.len)/8+2*int64(j.l)+1)
+	if j.d > 0 {
+		hi = min(hi, t.start/8+int64(j.d)+3*int64(j.l))
 	}
-	e.Boff = lo
+	lo = min(lo, hi)
+	e.Boff, e.Demo = lo, j.demo
 	for _, b := range t.buf[lo:hi] {
 		e.Buf = append(e.Buf, int(b))
 	}
@@ -371,11 +368,11 @@ func (j *job) events(out *kit.Out) int {
 		bar = '│'
 	}
 	if j.failed {
-		if j.Kind == "bin" || j.Cmd != "hd" { // only `hd` of a synthetic value may refuse
-			out.Emit(Event{Kind: "dump", What: j.what, Perr: "fq reported an error instead of a dump: " + j.out, Rows: []Row{}, Buf: []int{}, UAddr: []string{}, USize: []string{}, VR: []string{}, VS: []string{}})
-			return 1
+		if j.Kind != "bin" && j.target == nil { // decode / navigation failed: nothing was displayed
+			return 0
 		}
-		return 0
+		out.Emit(Event{Kind: "dump", What: j.what, Perr: "fq reported an error instead of a dump: " + j.out, Rows: []Row{}, Buf: []int{}, UAddr: []string{}, USize: []string{}, VR: []string{}, VS: []string{}})
+		return 1
 	}
 	ls, perr := splitDump(j.out, j.l, bar)
 	if perr != "" {
